@@ -6,7 +6,7 @@ EXPLANATION = (
     "CMP-1 `op` is used only as the operator argument of dewey_test (no branch, no other argument depends on it); CMP-2 operator table GE/GT/LE/LT -> >=,>,<=,< on (lhs, rhs) in that order; "
     "CMP-3 provenance: left operand from lhs or 0, right operand from rhs or 0, never both constants; CMP-4 every component comparison is guarded by inequality of the same two terms and indexed by a range 0..min(len l,len r), len l..len r (left = 0) or len r..len l (right = 0) on the matching length branch; "
     "CMP-5 the revision comparison is outside every loop and reached only after every loop on the path was exhausted; every return of dewey_cmp is a dewey_test result; "
-    "D conjunction: Dewey::matches returns true only after all bounds passed, false as soon as one fails; recognised spellings of the same discipline: three index loops on the length branch, one lock-step loop over 0..max(len) reading absent positions as 0 (get(i).unwrap_or(0)), or zip for the common prefix plus the first non-zero of each tail version[min(len)..] (searched only after the prefix is exhausted)")
+    "OPS-TOKENS each operator token selects its own operator in Dewey::new's scan (C02's D1-SCAN verdicts, shared); D conjunction: Dewey::matches returns true only after all bounds passed, false as soon as one fails; recognised spellings of the same discipline: three index loops on the length branch, one lock-step loop over 0..max(len) reading absent positions as 0 (get(i).unwrap_or(0)), or zip for the common prefix plus the first non-zero of each tail version[min(len)..] (searched only after the prefix is exhausted)")
 NOT_DECIDED = [
     "that Range iteration visits every position (std) and that tokenising is total (C17)",
     "a rewrite that branches on `op` while preserving behaviour would violate CMP-1 (documented false-alarm source)",
@@ -488,3 +488,24 @@ def run(ctx):
             others = [p for p in ret_paths(paths) if const_of(p.end[1]) is True and not any(c.term[0] == "discr" and is_call(strip_refs(c.term[1]), "::next") for c in p.conds())]
             ctx.check(not others, "D-CONJUNCTION", DM, "no-other-true", "no path answers true without consulting the bounds",
                       "matches() has a path that returns true without the bounds having been checked", fn_span(body), nontrivial=False)
+
+    # ---- OPS-TOKENS: the four operators are observed through patterns, so the token that selects each of them is part of this property: if "<="
+    #      were read as "<", A<=A would fail and <= would no longer be the negation of >.  What C02's D1-SCAN establishes about Dewey::new's
+    #      operator scan (">=" -> GE, ">" -> GT, "<=" -> LE, "<" -> LT, searched over the whole pattern) is shared here as instances of this check.
+    import rules.c02 as c02
+    from check import Ctx, Record
+    sub = Ctx("C02", ctx.tier, ctx.fx)
+    sub.inline_set = ctx.inline_set
+    sub.desugar = bool(getattr(c02, "DESUGAR", False))
+    try:
+        c02.run(sub)
+        shared = [r for r in sub.records if r.rule == "D1-SCAN" and not r.instance.startswith("floor:")]
+    except Exception:
+        shared = None
+    if not shared:
+        ctx.violation("OPS-TOKENS", "dewey::Dewey::new", "operator-scan", "the operator scan of Dewey::new could not be evaluated", "")
+    else:
+        for r in shared:
+            ctx.records.append(Record("OPS-TOKENS", r.item, "%s:%s" % (r.rule, r.instance), r.verdict, r.detail, r.span, False))
+    ctx.floor("OPS-TOKENS", "dewey::Dewey::new", "shared operator-scan rule instances", len(shared or []), 4)
+
